@@ -705,3 +705,53 @@ example :
 
 example : C09.isSubseq [("a", "1"), ("b", "2")] [("a", "1"), ("x", "0"), ("b", "2")] = true ∧
     C09.isSubseq [("b", "2"), ("a", "1")] [("a", "1"), ("x", "0"), ("b", "2")] = false := by decide
+
+/-! ### native re-checks of `out`: the element-type test is an EQUIVALENCE test -/
+
+/-- is the atom a type test on argument `o`? `some true`: an equivalence test (`numpy::equiv_typenums`, `check_type<T>`,
+`PyArray_EquivTypenums`) or an exact comparison with a type number that has no second number of the same layout (bool,
+32-bit int, double); `some false`: an exact comparison (`PyArray_TYPE(o) != NPY_X`) with one of the 64-bit integer numbers,
+which come in pairs (`NPY_LONG`/`NPY_LONGLONG`: 7/9, `NPY_ULONG`/`NPY_ULONGLONG`: 8/10); `none`: not a type test on `o`. -/
+def C09.typeTestOn (o : String) : C11.NAtom → Option Bool
+  | .typesDiffer as => if as.contains o then some true else none
+  | .typeNotEquiv a _ => if a == o then some true else none
+  | .typeNe a t => if a == o then some (!(t == 7 || t == 8 || t == 9 || t == 10)) else none
+  | .whenArr _ inner => C09.typeTestOn o inner
+  | .whenNotNone _ inner => C09.typeTestOn o inner
+  | _ => none
+
+/-- the native entry points that receive the caller's `out` (or the fresh buffer), the name of that parameter, and their
+guards as extracted from the current C++ sources (`Generated/Guards.lean`, regenerated on every run) -/
+def C09.nativeOutKernels : List (String × String × List C11.NAtom) := [
+  ("_morph.dilate", "output", Generated.nativeGuards_morph_dilate),
+  ("_morph.erode", "output", Generated.nativeGuards_morph_erode),
+  ("_morph.hitmiss", "res_a", Generated.nativeGuards_morph_hitmiss),
+  ("_morph.majority_filter", "res_a", Generated.nativeGuards_morph_majority_filter),
+  ("_morph.locmin_max", "output", Generated.nativeGuards_morph_locmin_max),
+  ("_morph.regmin_max", "output", Generated.nativeGuards_morph_regmin_max),
+  ("_morph.subm", "a", Generated.nativeGuards_morph_subm),
+  ("_convolve.convolve", "output", Generated.nativeGuards_convolve_convolve),
+  ("_convolve.convolve1d", "output", Generated.nativeGuards_convolve_convolve1d),
+  ("_convolve.rank_filter", "output", Generated.nativeGuards_convolve_rank_filter),
+  ("_convolve.mean_filter", "output", Generated.nativeGuards_convolve_mean_filter),
+  ("_convolve.template_match", "output", Generated.nativeGuards_convolve_template_match),
+  ("_labeled.label", "array", Generated.nativeGuards_labeled_label),
+  ("_labeled.border", "output", Generated.nativeGuards_labeled_border),
+  ("_labeled.borders", "output", Generated.nativeGuards_labeled_borders),
+  ("_interpolate.zoom_shift", "output", Generated.nativeGuards_interpolate_zoom_shift)]
+
+/-- **C09 (native re-checks accept every buffer `_get_output` accepts).** `_get_output` compares dtypes with numpy's `!=`,
+for which `int64` created as `'l'` and as `'q'` (`np.longlong`) are EQUAL although their C type numbers differ (7/9; 8/10 for
+the unsigned pair). Every native entry point that receives `out` re-checks its element type — and each of these re-checks, as
+extracted from the current C++ source, is an equivalence test (or an exact test against a type number without a twin): so a
+buffer accepted by `_get_output` is not rejected by the second line of defence for its type number. A re-check rewritten with
+`PyArray_TYPE(output) == typenum`, or moved where the extraction no longer sees it, makes this `decide` fail. -/
+theorem C09_native_out_type_tests_equivalence :
+    C09.nativeOutKernels.all (fun k =>
+      let tests := k.2.2.filterMap (C09.typeTestOn k.2.1)
+      !tests.isEmpty && tests.all id) = true := by
+  decide +kernel
+
+example : C09.typeTestOn "output" (.typeNe "output" 9) = some false ∧
+    C09.typeTestOn "output" (.whenNotNone "output" (.typesDiffer ["output", "array"])) = some true ∧
+    C09.typeTestOn "output" (.notCArray "output") = none := by decide
